@@ -8,7 +8,7 @@
 //        join  = join_node<tuple<Msg,Msg>,queueing> + merge function_node (pol/conc/work)            2 in / 1 out
 //        split = fork function_node<Msg,tuple<Msg,Msg>> (pol/conc/work) + split_node                  1 in / 2 out
 //        idx   = indexer_node<Msg,Msg> + queueing untag function_node                                 2 in / 1 out
-//        lim   = limiter_node<Msg>(thr) + queueing worker multifunction_node<Msg,tuple<Msg,continue_msg>>; fb=1: worker port 1 -> decrementer
+//        lim   = limiter_node<Msg>(thr) + queueing worker multifunction_node<Msg,tuple<Msg,continue_msg>>; fb=1: worker port 1 -> decrementer (df=1: decrement first, then cnt points of work, then the output); pol=<k>: k more successors of the limiter that only keep a copy
 //        mf    = multifunction_node<Msg,tuple<Msg,Msg>>: routing by bits of the id                    1 in / 2 out
 //        inp   = input_node producing cnt messages (roots base..base+cnt-1); async = async_node completed by a foreign thread
 //   e <from>.<oport> <to>.<iport>
@@ -43,7 +43,36 @@ static bool may_reject(const NP& n) {
 
 // ------------------------------------------------------------------ generator
 struct GN { NP p; std::vector<std::vector<std::pair<int, int>>> succ; std::vector<int> nedges; std::vector<char> ext; std::vector<char> locked; };
+// directed generator (drive --limdir): several buffering predecessors race for a limiter with threshold 1-2 whose successor sends the
+// decrement from another thread -- the shape of the limiter lost wake-up (fixed in /repo 20ef389, kept as mutant C14-revert-limiter-lost-wakeup-fix)
+static std::string gen_limdir(Src& s) {
+    int par = s.range(3, 4), ext = 1 + (int)s.weighted({ 1, 5, 3 }), nq = 2 + (int)s.coin(3);
+    static const char* QK[] = { "q", "buf", "pq" };
+    char b[200]; std::string o; snprintf(b, sizeof b, "cfg par=%d ext=%d\n", par, ext); o = b; int id = 0; std::vector<int> qs, tgt; std::string edges;
+    for (int i = 0; i < nq; i++) {
+        bool pre = s.coin(3);      // a function node in front of the queue: the offer then comes from a graph task on a worker
+        if (pre) { snprintf(b, sizeof b, "n %d fn pol=0 conc=%d work=%d thr=1 fb=1 df=0 cnt=0 base=0\n", id, (int)s.choose(2), s.range(0, 3)); o += b; tgt.push_back(id); id++; }
+        snprintf(b, sizeof b, "n %d %s pol=0 conc=0 work=0 thr=1 fb=1 df=0 cnt=0 base=0\n", id, QK[s.weighted({ 5, 2, 2 })]); o += b;
+        if (pre) { snprintf(b, sizeof b, "e %d.0 %d.0\n", id - 1, id); edges += b; } else tgt.push_back(id);
+        qs.push_back(id); id++;
+    }
+    int lim = id++;
+    { int df = s.coin(8) ? 0 : 1; snprintf(b, sizeof b, "n %d lim pol=%d conc=%d work=%d thr=%d fb=1 df=%d cnt=%d base=0\n", lim, (int)s.weighted({ 1, 2, 3, 2 }), s.coin(6) ? 2 : 1, (int)s.weighted({ 4, 1, 1 }), s.coin(8) ? 2 : 1, df, df ? s.range(1, 8) : 0); o += b; }
+    for (int q : qs) { snprintf(b, sizeof b, "e %d.0 %d.0\n", q, lim); edges += b; }
+    if (s.flip()) { snprintf(b, sizeof b, "n %d fn pol=0 conc=%d work=%d thr=1 fb=1 df=0 cnt=0 base=0\n", id, (int)s.choose(2), s.range(0, 2)); o += b; snprintf(b, sizeof b, "e %d.0 %d.0\n", lim, id); edges += b; id++; }
+    o += edges; int root = 0;
+    for (int t = 0; t < ext; t++) {
+        o += "t " + std::to_string(t); int nops = s.range(2, 6);
+        for (int q = 0; q < nops; q++) {
+            if (q && s.coin(2)) { o += " W" + std::to_string(s.range(1, 8)); }
+            o += " P" + std::to_string(tgt[s.choose((uint32_t)tgt.size())]) + ".0:" + std::to_string(root++);
+        }
+        o += "\n";
+    }
+    return o;
+}
 std::string h_gen(Src& s) {
+    if (drv_flag("--limdir")) return gen_limdir(s);
     int par = s.range(1, 4); if (par < 2 && s.flip()) par = 2;
     bool witness = drv_flag("--witness");
     int ext = 1 + (int)s.weighted({ 5, 3, 1 }); if (witness && ext < 2) ext = 2;
@@ -60,7 +89,7 @@ std::string h_gen(Src& s) {
         if (k == K_FN) { n.p.pol = (int)s.weighted({ 4, 6, 1, 2 }); n.p.conc = (int)s.weighted({ 2, 6, 2 }); n.p.work = s.range(0, 8); }
         if (witness && it == 0) { n.p.pol = 2; n.p.conc = 1; n.p.work = s.range(2, 8); }
         else if (k == K_MF || k == K_SPLIT || k == K_JOIN) { n.p.pol = (int)s.weighted({ 3, 3 }); n.p.conc = (int)s.weighted({ 2, 5, 2 }); n.p.work = s.range(0, 5); }
-        else if (k == K_LIM) { n.p.thr = s.range(1, 3); n.p.fb = s.coin(4) ? 0 : 1; n.p.conc = (int)s.weighted({ 2, 3, 2 }); n.p.work = s.range(0, 4); n.p.df = s.flip(); }
+        else if (k == K_LIM) { n.p.thr = s.range(1, 3); n.p.fb = s.coin(4) ? 0 : 1; n.p.conc = (int)s.weighted({ 2, 3, 2 }); n.p.work = s.range(0, 4); n.p.df = s.flip(); if (n.p.df) n.p.cnt = s.range(0, 6); if (s.coin(3)) n.p.pol = s.range(1, 3); }
         else if (k == K_IDX) { n.p.conc = (int)s.weighted({ 2, 3, 1 }); n.p.work = s.range(0, 3); }
         else if (k == K_ASYNC) { n.p.conc = (int)s.weighted({ 3, 2, 1 }); n.p.work = s.range(0, 4); }
         else if (k == K_INP) { n.p.cnt = s.range(1, 4); }
@@ -178,7 +207,7 @@ struct Comp { uint64_t id; uint64_t t; bool ok; };
 struct NodeRt { virtual receiver<Msg>* in(int) { return nullptr; } virtual sender<Msg>* out(int) { return nullptr; } virtual bool drain(Msg&) { return false; } virtual void activate() {} virtual ~NodeRt() {} };
 struct NodeSt {
     NP p; std::vector<std::vector<std::pair<int, int>>> succ, pred; std::vector<Inv> log; int live = 0, limit = 0; long entered = 0, decs = 0;
-    std::vector<Comp> comps; std::vector<uint64_t> produced; int stops = 0; bool in_src = false; NodeRt* rt = nullptr;
+    std::vector<Comp> comps; std::vector<uint64_t> produced; int stops = 0; bool in_src = false; NodeRt* rt = nullptr; long paths = 1;
 };
 struct Root { int node = -1, port = 0; uint64_t inv = 0, ret = 0; bool ok = false, done = false, from_input = false; uint64_t id = 0; int thread = -1; };
 static std::vector<NodeSt> N; static std::vector<Root> R; static graph* G;
@@ -200,10 +229,13 @@ static void note_arrival(int s, uint64_t id) {
     for (auto& sp : N[s].succ[0]) if (may_reject(N[sp.first].p) && N[sp.first].p.kind != K_WO) g_pending_pull[{ sp.first, id }] = { vs_now(), saturated(sp.first) };
 }
 static void note_emit(int node, int op, uint64_t id) { for (auto& sp : N[node].succ[op]) note_arrival(sp.first, id); }
+static std::string origin(uint64_t id);
 static int enter(int node, uint64_t id, uint64_t id2, uint64_t mask, int tag) {
     NodeSt& n = N[node];
     if (n.limit && n.live >= n.limit) vs_violation("CONCURRENCY-LIMIT", "node %d (%s, concurrency %d): body started while %d bodies are running", node, KN[n.p.kind], n.limit, n.live);
     n.live++; g_enters++;
+    { long seen = 0; for (auto& iv : n.log) if (iv.id == id && iv.id2 == id2 && iv.tag == tag) seen++;     // one delivery per path at most: catches re-delivery loops at once
+      if (seen >= n.paths) vs_violation("DUP-MESSAGE", "node %d (%s): message %s delivered %ld times, only %ld distinct paths lead here", node, KN[n.p.kind], origin(id).c_str(), seen + 1, n.paths); }
     bool inl = tl_ext_put > 0; if (inl) n_inline++;
     if (!inl && g_busy++ == 0) g_busy_since = vs_now();
     { auto it = g_pending_pull.find({ node, id });
@@ -243,7 +275,7 @@ struct WorkerBody {
         if (n.entered - n.decs > n.p.thr) vs_violation("LIMITER-THRESHOLD", "limiter %d (threshold %d): %ld messages forwarded with only %ld decrements sent", node, n.p.thr, n.entered, n.decs);
         int i = enter(node, m.id, 0, m.mask, -1); vs_work(n.p.work);
         Msg o{ HH(m.id, node, 0), m.mask, 0 };
-        if (n.p.fb && n.p.df) { n.decs++; std::get<1>(ports).try_put(continue_msg()); }
+        if (n.p.fb && n.p.df) { n.decs++; std::get<1>(ports).try_put(continue_msg()); vs_work(n.p.cnt); }   // df=1: decrement early, then cnt more points of work while the worker's slot is still held
         note_emit(node, 0, o.id); std::get<0>(ports).try_put(o);
         if (n.p.fb && !n.p.df) { n.decs++; std::get<1>(ports).try_put(continue_msg()); }
         leave(node, i);
@@ -300,7 +332,10 @@ struct IdxRt : NodeRt {
 };
 struct LimRt : NodeRt {
     limiter_node<Msg> l; multifunction_node<Msg, std::tuple<Msg, continue_msg>, queueing> w;
-    LimRt(int id, size_t thr, size_t c, bool fb) : l(*G, thr), w(*G, c, WorkerBody{ id }) { make_edge(l, w); if (fb) make_edge(output_port<1>(w), l.decrementer()); }
+    LimRt(int id, size_t thr, size_t c, bool fb, int extra) : l(*G, thr), w(*G, c, WorkerBody{ id }) {
+        make_edge(l, w); if (fb) make_edge(output_port<1>(w), l.decrementer());
+        for (int i = 0; i < extra; i++) make_edge(l, *new buffer_node<Msg>(*G));   // pol=<k>: k more successors of the limiter that just keep a copy (a forward then takes longer)
+    }
     receiver<Msg>* in(int) override { return &l; } sender<Msg>* out(int) override { return &output_port<0>(w); }
 };
 struct BcRt : NodeRt { broadcast_node<Msg> b; BcRt() : b(*G) {} receiver<Msg>* in(int) override { return &b; } sender<Msg>* out(int) override { return &b; } };
@@ -317,7 +352,7 @@ static NodeRt* make_node(int id) {
     case K_JOIN: return (p.pol & 1) ? (NodeRt*)new JoinRt<rejecting>(id, c) : (NodeRt*)new JoinRt<queueing>(id, c);
     case K_SPLIT: return (p.pol & 1) ? (NodeRt*)new SplitRt<rejecting>(id, c) : (NodeRt*)new SplitRt<queueing>(id, c);
     case K_IDX: return new IdxRt(id, c);
-    case K_LIM: return new LimRt(id, (size_t)p.thr, c, p.fb != 0);
+    case K_LIM: return new LimRt(id, (size_t)p.thr, c, p.fb != 0, p.pol);
     case K_BC: return new BcRt();
     case K_BUF: return new BufRt<buffer_node<Msg>>();
     case K_Q: return new BufRt<queue_node<Msg>>();
@@ -363,12 +398,14 @@ static void final_evaluate() {
         if (ro.ok) ExtAcc[ro.node][ro.port][ro.id]++;
         else { n_ext_false++; if (!may_reject(N[ro.node].p) && N[ro.node].p.kind != K_SEQ) vs_violation("PUT-REJECTED", "external try_put of root %zu to node %d (%s) port %d returned false although this receiver never rejects", r, ro.node, KN[N[ro.node].p.kind], ro.port); if (N[ro.node].p.kind == K_SEQ) vs_violation("PUT-REJECTED", "sequencer %d rejected root %zu with a fresh sequence number", ro.node, r); }
     }
-    // drain keepers first (values needed by refusing())
+    // drain keepers first (values needed by refusing()); what the input_nodes produced is fixed before, a drain may trigger further production
+    std::vector<std::vector<uint64_t>> Produced(nn); for (size_t i = 0; i < nn; i++) Produced[i] = N[i].produced;
     std::vector<MS> Left(nn);
     for (size_t i = 0; i < nn; i++) {
         int k = N[i].p.kind; Msg m;
         if (k == K_OW || k == K_WO) { g_wo_valid[i] = N[i].rt->drain(m); g_wo_val[i] = m.id; }
-        else if (is_krr(k) || k == K_INP) { int guard = 0; while (N[i].rt->drain(m)) { Left[i][m.id]++; if (++guard > 200) vs_violation("DUP-MESSAGE", "node %zu (%s) keeps delivering items to try_get", i, KN[k]); } }
+        else if (k == K_INP) { if (N[i].rt->drain(m)) Left[i][m.id]++; }    // one try_get only: a failing try_get of an active input_node spawns a task that runs the body again
+        else if (is_krr(k)) { int guard = 0; while (N[i].rt->drain(m)) { Left[i][m.id]++; if (++guard > 200) vs_violation("DUP-MESSAGE", "node %zu (%s) keeps delivering items to try_get", i, KN[k]); } }
     }
     for (size_t i = 0; i < nn; i++) for (auto& iv : N[i].log) if (!iv.t1) vs_violation("WAIT-NOT-IDLE", "final wait_for_all returned while a body of node %zu is still running", i);
     for (size_t i = 0; i < nn; i++) {
@@ -430,12 +467,12 @@ static void final_evaluate() {
             if (n.succ[0].size() > 1) { MS got; for (auto& sp : n.succ[0]) for (auto& iv : N[sp.first].log) got[iv.id]++; ms_expect_equal(passed, got, (int)i, "messages taken by its successor group"); }
             Out[i][0] = passed; break; }
         case K_INP: {
-            MS prod; for (auto id : n.produced) prod[id]++;
+            MS prod; for (auto id : Produced[i]) prod[id]++;
             for (auto& kv : prod) if (kv.second > 1) vs_violation("DUP-MESSAGE", "input_node %zu produced the same message twice", i);
             for (auto& kv : Left[i]) if (!prod.count(kv.first)) vs_violation("PHANTOM-MESSAGE", "input_node %zu: try_get returned an item its body never produced", i);
             leftover_ok(Left[i]);
             bool anyref = false; for (auto& sp : n.succ[0]) if (refusing(sp.first)) anyref = true;
-            if (!n.succ[0].empty() && !anyref && N[i].entered && (int)n.produced.size() != n.p.cnt) vs_violation("STUCK-MESSAGE", "input_node %zu was activated, has an accepting successor, but produced only %zu of %d messages", i, n.produced.size(), n.p.cnt);
+            if (!n.succ[0].empty() && !anyref && N[i].entered && (int)Produced[i].size() != n.p.cnt) vs_violation("STUCK-MESSAGE", "input_node %zu was activated, has an accepting successor, but produced only %zu of %d messages", i, Produced[i].size(), n.p.cnt);
             MS passed = prod; for (auto& kv : Left[i]) passed.erase(kv.first);
             Out[i][0] = passed; break; }
         }
@@ -447,24 +484,31 @@ static bool finished_at(int node, uint64_t id) { for (auto& iv : N[node].log) if
 static void closure(int node, int port, uint64_t id, int root, int depth);
 static void fwd(int node, int op, uint64_t id, int root, int depth) { for (auto& sp : N[node].succ[op]) closure(sp.first, sp.second, id, root, depth + 1); }
 static uint64_t g_cw_inv = 0; static bool g_strict_lw = false; static long n_lw_waived = 0;
-// A lightweight body that runs inline inside another external thread's try_put occupies the node's concurrency slot without
-// being a graph task: a message queued behind it is invisible to wait_for_all (it becomes a task only when that body ends).
-// Documented wait_for_all waits for tasks and reserve_wait only, so this is not demanded (witness mode: cfg strictlw=1).
-static bool lw_excuse(int node) {
+// Known gap (finding C14-lightweight-wait-for-all-gap, two facets): work that is held by ANOTHER external thread inside its own
+// try_put is invisible to wait_for_all, because that thread is not a graph task:
+//  (1) a lightweight body running inline in that try_put occupies its node's concurrency slot; a message queued behind it becomes a
+//      task only when that body ends;
+//  (2) buffer_node::handle_operations publishes SUCCEEDED for a put before it creates the forwarding task; when the aggregator handler
+//      is that other thread (possibly at the end of an inline lightweight chain) the accepted message has no task for a while.
+// Documented wait_for_all waits for tasks and reserve_wait only, so coverage of a root is not demanded at and behind such a node
+// while a try_put of another thread is in progress at or after the wait's invocation.  Witness mode (cfg strictlw=1) demands it.
+static bool gap_window(int root) {
     if (g_strict_lw) return false;
-    NodeSt& n = N[node]; bool lw = (n.p.kind == K_ASYNC) || ((n.p.kind == K_FN) && (n.p.pol & 2));
-    if (!lw || !n.limit) return false;
-    // the slot may be held before the inline body is logged: any external try_put of another thread that is in progress or ended after the wait began
-    for (auto& ro : R) if (ro.node >= 0 && !ro.from_input && ro.inv && ro.thread != vs_self() && (!ro.done || ro.ret > g_cw_inv)) { n_lw_waived++; return true; }
+    (void)root;   // the other thread's try_put must still be running when the wait is invoked (otherwise the task it owes exists already)
+    for (auto& ro : R) if (ro.node >= 0 && !ro.from_input && ro.inv && ro.thread != vs_self() && (!ro.done || ro.ret > g_cw_inv)) return true;
     return false;
+}
+static bool gap_node(int node) {
+    NodeSt& n = N[node]; int k = n.p.kind;
+    if (k == K_BUF || k == K_Q || k == K_PQ) return true;
+    return n.limit && (k == K_ASYNC || (k == K_FN && (n.p.pol & 2)));
 }
 static void closure(int node, int port, uint64_t id, int root, int depth) {
     NodeSt& n = N[node]; int k = n.p.kind; if (depth > 40) return;
+    if (gap_node(node) && gap_window(root)) { n_lw_waived++; return; }
     auto need = [&]() -> bool {
-        if (!finished_at(node, id)) {
-            if (lw_excuse(node)) return false;
+        if (!finished_at(node, id))
             vs_violation("WAIT-TOO-EARLY", "wait_for_all returned although root %d (accepted before the wait was invoked) has not been processed by node %d (%s): message %s", root, node, KN[k], origin(id).c_str());
-        }
         n_cover++; return true; };
     switch (k) {
     case K_FN: if (need()) fwd(node, 0, HH(id, node, 0), root, depth); break;
@@ -476,10 +520,14 @@ static void closure(int node, int port, uint64_t id, int root, int depth) {
     case K_BUF: case K_Q: case K_PQ:
         if (n.succ[0].size() <= 1) fwd(node, 0, id, root, depth);
         else {
-            bool f = false, exc = false;
+            bool f = false;
             for (auto& sp : n.succ[0]) if (finished_at(sp.first, id)) { f = true; closure(sp.first, sp.second, id, root, depth + 1); break; }
-            if (!f) for (auto& sp : n.succ[0]) if (lw_excuse(sp.first)) exc = true;
-            if (!f && !exc) vs_violation("WAIT-TOO-EARLY", "wait_for_all returned although root %d (accepted before the wait) was not taken by any successor of node %d (%s)", root, node, KN[k]);
+            if (!f) {
+                std::string d; char b[160];
+                for (auto& sp : n.succ[0]) { bool seen = false; for (auto& iv : N[sp.first].log) if (iv.id == id) { seen = true; snprintf(b, sizeof b, " node%d:started@%lu,fin@%lu,thr%d", sp.first, (unsigned long)iv.t0, (unsigned long)iv.t1, iv.thread); d += b; } if (!seen) { snprintf(b, sizeof b, " node%d:unseen(live=%d)", sp.first, N[sp.first].live); d += b; } }
+                snprintf(b, sizeof b, " put[%lu,%lu] wait[%lu,now=%lu] busy=%ld since %lu", (unsigned long)R[root].inv, (unsigned long)R[root].ret, (unsigned long)g_cw_inv, (unsigned long)vs_now(), g_busy, (unsigned long)g_busy_since); d += b;
+                vs_violation("WAIT-TOO-EARLY", "wait_for_all returned although root %d (accepted before the wait) was not taken by any successor of node %d (%s):%s", root, node, KN[k], d.c_str());
+            }
         }
         break;
     default: break;    // join port, limiter, write_once, sequencer: the message may legitimately be parked
@@ -552,6 +600,15 @@ void h_run(Case& c) {
         }
     }
     R.resize(maxroot);
+    {   // number of distinct paths into every node (an upper bound for how often one message id may arrive there)
+        std::vector<std::vector<long>> outp(N.size());
+        for (size_t i = 0; i < N.size(); i++) {
+            long in = N[i].p.kind == K_INP ? 1 : 0;
+            for (size_t p2 = 0; p2 < N[i].pred.size(); p2++) { in += 1; for (auto& pr : N[i].pred[p2]) in += outp[pr.first][pr.second]; }
+            if (in > 100000) in = 100000;
+            N[i].paths = in; outp[i].assign(N[i].succ.size(), in);
+        }
+    }
     for (auto& n : N) if (n.p.kind == K_INP) for (int r = n.p.base; r < n.p.base + n.p.cnt; r++) { R[r].node = (int)(&n - &N[0]); R[r].id = rootid(r); R[r].from_input = true; }
     vs_begin(c.sched.c_str());
     new tbb::global_control(tbb::global_control::max_allowed_parallelism, (size_t)par);
